@@ -24,6 +24,44 @@ import (
 	"github.com/synnaxlabs/x/telem"
 )
 
+// vlFS perturbs the schedule at file-system calls: garbage collection's copy / swap
+// phases and index persists are stretched by short random sleeps so that concurrent
+// deletes and commits land inside them far more often than they would by chance.
+type vlFS struct {
+	xfs.FS
+	seed int64
+	n    *atomic.Int64
+}
+
+func (f vlFS) nap(max int) {
+	k := f.n.Add(1)
+	x := uint64(f.seed)*0x9E3779B97F4A7C15 + uint64(k)*0xBF58476D1CE4E5B9
+	x ^= x >> 29
+	if d := int(x % uint64(max)); d > 0 {
+		time.Sleep(time.Duration(d) * time.Microsecond)
+	}
+}
+
+func (f vlFS) Open(name string, flag int) (xfs.File, error) {
+	if len(name) > 3 && name[len(name)-3:] == "_gc" {
+		f.nap(400)
+	}
+	return f.FS.Open(name, flag)
+}
+
+func (f vlFS) Rename(a, b string) error {
+	f.nap(200)
+	return f.FS.Rename(a, b)
+}
+
+func (f vlFS) Sub(name string) (xfs.FS, error) {
+	sub, err := f.FS.Sub(name)
+	if err != nil {
+		return nil, err
+	}
+	return vlFS{FS: sub, seed: f.seed, n: f.n}, nil
+}
+
 type vlEvent struct {
 	Ev    string                    `json:"ev"`
 	P     string                    `json:"p,omitempty"`
@@ -159,10 +197,15 @@ func vlRun(seed int64, round int, hang *atomic.Bool) (evs []vlEvent, fatal strin
 	rnd := rand.New(rand.NewSource(seed*7919 + int64(round)))
 	c := vsConcFromSeed(seed, round*13+5)
 	c.NoEmpty = true
-	if rnd.Intn(3) != 0 {
-		c.FileCap = 0 // most rounds without rollover (the known delete defect needs it)
+	switch rnd.Intn(3) {
+	case 0:
+		c.FileCap = 0 // no rollover
+	case 1:
+		// the four old samples fill the first file of the 8-byte channels exactly, so the
+		// concurrent sessions write to new files and GC may compact the old one meanwhile
+		c.FileCap = 32
 	}
-	r := &vlRound{c: c, fs: xfs.NewMem(), written: map[string]map[int]int{"I": {}, "D": {}, "V": {}}}
+	r := &vlRound{c: c, fs: vlFS{FS: xfs.NewMem(), seed: seed*131 + int64(round), n: &atomic.Int64{}}, written: map[string]map[int]int{"I": {}, "D": {}, "V": {}}}
 	db, err := Open(context.Background(), "", r.opts()...)
 	if err != nil {
 		return nil, "open: " + err.Error()
